@@ -18,7 +18,7 @@ own variable; root labels attach name(Var(k)) to ac[k]; the worklist is seeded w
 of every member; nothing but root handles and children of members ever enters the index sets; node, label and edge sets are
 filtered by the same reachable set; the guard's Drop removes its key on every path except under a poisoned blocking lock), C16.F-pair (each stored AcAndGraph
 pairs the string form of a model with the graph built from the same model and the same rebuilt ADF), C14.A-dto and
-C14.F-replay (storage round trip), S.X-exhaust on the server's collects, and - since the stored models are the library's answers - the
+C14.F-replay (storage round trip), C14.P-fix-once (the rebuild from storage does not re-apply the non-idempotent repair step), S.X-exhaust on the server's collects, and - since the stored models are the library's answers - the
 complete rule suites of C01-C05 with their dependency suites (rules/deps.py) for the default library configuration."""
 NOT_DECIDED = "Eventual storage, timeouts and request histories against a database (MongoDB/actix trusted); that the models are the definitional answers needs C01-C05 behaviourally."
 TECHNIQUE = "static analysis: discriminant-guarded path summaries (table agreement across three sites), unwind-aware pairing rule with Drop-impl resolution, accessor/field agreement via expression reconstruction"
